@@ -19,6 +19,7 @@ present) and their output is judged by an independent reader (gverif.refverify) 
           with a fresh gemato loader and the reference (1, 2)
 """
 
+import hashlib
 import itertools
 import os
 import subprocess
@@ -73,14 +74,16 @@ def judge_reference(root, top, v=None):
     bad = []
     if v is None:
         v = refverify.expected_verify(root, top, '')
+    # "covers every file exactly once" is judged on its own: it does not depend on whether the reference can
+    # give a verify verdict for a path listed more than once
+    if v.multi:
+        bad.append(('covered_more_than_once', f'{dict(v.multi)}', {}))
     if v.kind == 'dontcare':
-        return None, str(v.dc[0])
+        return bad, str(v.dc[0])
     if v.kind != 'match':
         bad.append(('reference_mismatch', f'reference verdict {v.kind}: offenders={dict(v.offenders)} '
                     f'chain={v.chain_broken} conflicts={v.conflicts}',
                     {'offenders': sorted(set(v.offenders.values())), 'chain': bool(v.chain_broken)}))
-    if v.multi:
-        bad.append(('covered_more_than_once', f'{dict(v.multi)}', {}))
     lacking = sorted(p for p, (_t, _s, cks) in v.entries.items() if not WANT_HASHES <= set(cks))
     if lacking:
         bad.append(('hash_missing', f'entries without BLAKE2B+SHA512: {lacking[:4]}', {}))
@@ -99,6 +102,132 @@ def special(sh):
         out.append('category without packages (generator writes an empty Manifest)')
     if 'nd2' in sh['repo']:
         out.append('non-category top-level directory with sub-directories (profile wants a Manifest, scripts write none)')
+    return out
+
+
+# ------------------------------------------------------------------ pre-existing package Manifests
+
+# The pre-existing Manifest of a package directory is the correct Manifest of an OLDER STATE of that package:
+#   absent            no Manifest
+#   dist              DIST line only (what repogen's 'man' component writes)
+#   ignore            one IGNORE line (for a path that does not exist) and nothing else
+#   thick             DIST + one file entry per file of the package as it is now (up to date)
+#   thick-oldhashes   as thick, entries carry SHA256+SHA512 (an older hash set) with correct values
+#   thick-stale       as thick, every file had an older content (other size, other digests)
+#   thick-stale:T     as thick, only the files of tag T had an older content            T in PRE_TAGS
+#   thick-gone:T      as thick, the older state held one more object of tag T that no longer exists
+#                     (T in GONE_TAGS; MANIFEST = a sub-Manifest, TIMESTAMP = a TIMESTAMP line)
+PRE_TAGS = ('DATA', 'MISC', 'EBUILD', 'AUX')
+GONE_TAGS = PRE_TAGS + ('MANIFEST', 'TIMESTAMP')
+PRE_VARIANTS = (('absent', 'dist', 'ignore', 'thick', 'thick-oldhashes', 'thick-stale')
+                + tuple('thick-stale:' + t for t in PRE_TAGS) + tuple('thick-gone:' + t for t in GONE_TAGS))
+# per-package components the 'pre' family ranges over ('other' = a ChangeLog, i.e. a DATA file in the package)
+PRE_COMPS = ('e1', 'e2', 'meta', 'fx', 'fy', 'other')
+OLD_TIMESTAMP = 'TIMESTAMP 2019-01-01T00:00:00Z'
+
+
+def pkg_tag(rel):
+    """GLEP 74 / ebuild-layout typing of a path relative to a package directory -> (tag, entry path)."""
+    base = os.path.basename(rel)
+    if '/' not in rel and base.endswith('.ebuild'):
+        return 'EBUILD', rel
+    if rel == 'metadata.xml':
+        return 'MISC', rel
+    if rel.startswith('files/'):
+        return 'AUX', rel[len('files/'):]
+    return 'DATA', rel
+
+
+def entry_line(tag, path, data, hashes=('BLAKE2B', 'SHA512')):
+    algo = {'BLAKE2B': hashlib.blake2b, 'SHA512': hashlib.sha512, 'SHA256': hashlib.sha256}
+    return f'{tag} {path} {len(data)} ' + ' '.join(f'{h} {algo[h](data).hexdigest()}' for h in hashes)
+
+
+def pre_applicable(comps, pre):
+    """thick-stale:T needs a file of tag T in the package (otherwise it IS the variant thick)."""
+    if not pre.startswith('thick-stale:'):
+        return True
+    have = {'EBUILD': {'e1', 'e2'}, 'MISC': {'meta'}, 'AUX': {'fx', 'fy'}, 'DATA': {'other'}}
+    return bool(have[pre.split(':')[1]] & set(comps))
+
+
+def pre_manifest(pkg, files, dist_line, pre):
+    """Bytes of the pre-existing Manifest (None = no Manifest) for a package holding ``files`` (rel -> bytes)."""
+    if pre == 'absent':
+        return None
+    if pre == 'dist':
+        return dist_line
+    if pre == 'ignore':
+        return b'IGNORE ignored-dir\n'
+    kind, _, arg = pre.partition(':')
+    hashes = ('SHA256', 'SHA512') if kind == 'thick-oldhashes' else ('BLAKE2B', 'SHA512')
+    lines = [dist_line.decode().rstrip('\n')]
+    for rel in sorted(files):
+        tag, ep = pkg_tag(rel)
+        data = files[rel]
+        if kind == 'thick-stale' and arg in ('', tag):
+            data = b'older content\n' + data
+        lines.append(entry_line(tag, ep, data, hashes))
+    if kind == 'thick-gone':
+        gone = {'DATA': 'gone.txt', 'EBUILD': f'{pkg}-0.ebuild', 'AUX': 'gone.patch', 'MANIFEST': 'gone/Manifest',
+                'MISC': 'ChangeLog.gone' if 'metadata.xml' in files else 'metadata.xml'}
+        if arg == 'TIMESTAMP':
+            lines.append(OLD_TIMESTAMP)
+        else:
+            lines.append(entry_line(arg, gone[arg], f'gone {arg}\n'.encode()))
+    return ('\n'.join(sorted(lines)) + '\n').encode()
+
+
+def build_tree(case):
+    """The repository of a case: repogen's tree, with the pre-existing Manifest of every package that has the
+    'man' component replaced by the case's variant (case['pre']; None = leave repogen's DIST-only one)."""
+    sh, seed, pre = case['shape'], case['seed'], case.get('pre')
+    tree = repogen.build(sh, seed, require_dirs=True)
+    if pre is None:
+        return tree
+    for cat, pkg, comps in repogen.packages(sh, seed):
+        if 'man' not in comps:
+            continue
+        d = f'{cat}/{pkg}/'
+        files = {p[len(d):]: data for p, data in tree.files.items()
+                 if p.startswith(d) and p != d + 'Manifest' and not any(c.startswith('.') for c in p.split('/'))}
+        m = pre_manifest(pkg, files, tree.files[d + 'Manifest'], pre)
+        if m is None:
+            del tree.files[d + 'Manifest']
+        else:
+            tree.files[d + 'Manifest'] = m
+    return tree
+
+
+def carried(root, reldir):
+    """Observation class (not judged): which non-file lines of a pre-existing Manifest the output kept."""
+    for top in ('Manifest', 'Manifest.gz'):
+        st, ents = refverify.read_manifest(root, os.path.join(reldir, top) if reldir else top)
+        if st == 'ok':
+            tags = {e[0] for e in ents}
+            return top + '/' + ('+'.join(t for t in ('DIST', 'IGNORE', 'TIMESTAMP') if t in tags) or 'files_only')
+    return 'none'
+
+
+def pre_shapes(tier):
+    """-> list of ('pre', shape, variant)."""
+    full = repogen.C20_BASE + tuple(x for x in repogen.C20_OPT if x != 'nd2')
+    out = []
+    if tier == 'quick':
+        # an ebuild package with every subset of {metadata.xml, files/x, ChangeLog}, and two ebuild-less ones
+        subs = [('e1',) + s for s in repogen.powerset(('meta', 'fx', 'other'))] + [('meta', 'fx'), ()]
+        grids, repos = [(1, 1)], [full]
+    else:
+        subs = list(repogen.powerset(PRE_COMPS))
+        grids, repos = [(1, 1), (2, 2)], [repogen.C20_BASE, full]
+    for (nc, npk), repo, sub, pre in itertools.product(grids, repos, subs, PRE_VARIANTS):
+        if not pre_applicable(sub, pre):
+            continue
+        first = tuple(c for c in sub if c != 'other') + ('man',)
+        last = repogen.PKG_FULL + ('man',)
+        cats = [[first if (ci, pi) == (0, 0) else last if (ci, pi) == (nc - 1, npk - 1) else repogen.PKG_FULL
+                 for pi in range(npk)] for ci in range(nc)]
+        out.append(('pre', repogen.shape(cats, repo, ('pkg_other',) if 'other' in sub else ()), pre))
     return out
 
 
@@ -168,9 +297,11 @@ def apply_edits(root, sh, seed, edits):
 
 def _v(out, case, check, msg, **extra):
     sig = {'check': check, 'part': case['part']}
+    if case.get('pre') is not None:
+        sig['pre'] = case['pre']
     sig.update(extra)
     out.append({'sig': sig, 'case': case, 'message': f'{check} [{case["part"]}] {msg} (shape={case["shape"]}, '
-                f'edits={case.get("edits")})'})
+                f'pre-existing package Manifest={case.get("pre") or "as in shape"}, edits={case.get("edits")})'})
 
 
 def tree_of(root):
@@ -183,7 +314,7 @@ def tree_of(root):
 def generate_meta(case, scratch, stats, out):
     """Run gen_fast_metamanifest on a fresh copy of the shape -> root or None."""
     root = fresh_root(scratch)
-    repogen.build(case['shape'], case['seed'], require_dirs=True).write(root)
+    build_tree(case).write(root)
     rc, err = run_script('gen_fast_metamanifest.py', root)
     if stats is not None:
         stats.evaluations += 1
@@ -215,6 +346,9 @@ def check_generated(case, root, stats, out):
     bad, dc = judge_reference(root, 'Manifest')
     if stats is not None:
         stats.transitions += 1
+        if case.get('pre') is not None:
+            cat, pkg, _c = repogen.packages(case['shape'], case['seed'])[0]
+            stats.outcomes[f'pre/meta/{case["pre"].split(":")[0]}->{carried(root, f"{cat}/{pkg}")}'] += 1
         if dc:
             stats.dontcare['reference: ' + dc] += 1
         else:
@@ -330,10 +464,14 @@ def check_single(case, scratch, stats=None):
     out = []
     sh, seed = case['shape'], case['seed']
     root = fresh_root(scratch)
-    repogen.build(sh, seed, require_dirs=True).write(root)
+    build_tree(case).write(root)
     all_ok = True
     ts_reported = False
-    for d, klass in single_dirs(sh, seed, root):
+    todo = single_dirs(sh, seed, root)
+    if case.get('dirs') == 'packages':
+        # the 'pre' family: the pre-existing Manifest only matters to the run on the package directory itself
+        todo = [(d, klass) for d, klass in todo if klass == 'package']
+    for d, klass in todo:
         full = os.path.join(root, d) if d else root
         rc, err = run_script('gen_fast_manifest.py', full)
         if stats is not None:
@@ -362,6 +500,9 @@ def check_single(case, scratch, stats=None):
             stats.transitions += 2
             stats.compared += 1
             stats.outcomes[f'single/{top}/{gem.brief(fv)}'] += 1
+            if case.get('pre') is not None and klass == 'package':
+                stats.counters['pre/single_package_runs'] += 1
+                stats.outcomes[f'pre/single/{case["pre"].split(":")[0]}->{carried(full, "")}'] += 1
         # the script leaves files named timestamp* out of non-package Manifests and relies on IGNORE lines
         # that only gen_fast_metamanifest pre-populates: one finding, reported once per repository
         ts_only = (v.kind == 'mismatch' and not v.chain_broken and not v.conflicts and bool(v.offenders) and
@@ -419,7 +560,14 @@ def shards(tier, seed):
     return [(i, n) for i in range(n)]
 
 
+def all_cases(tier):
+    """-> [(family, shape, pre-existing-Manifest variant or None)]"""
+    return [(fam, sh, None) for fam, sh in repogen.shapes_c20(tier)] + pre_shapes(tier)
+
+
 def max_edits(tier, fam, sh):
+    if fam == 'pre':
+        return 1 if tier == 'quick' else 2
     grid = (len(sh['cats']), max([len(c) for c in sh['cats']] or [0]))
     if fam == 'opt':
         return 1
@@ -432,31 +580,37 @@ def max_edits(tier, fam, sh):
 def run_shard(spec, tier, seed, scratch):
     i, n = spec
     stats = Stats()
-    allshapes = repogen.shapes_c20(tier)
+    allshapes = all_cases(tier)
     for idx in range(i, len(allshapes), n):
-        fam, sh = allshapes[idx]
+        fam, sh, pre = allshapes[idx]
         stats.counters['repositories'] += 1
         stats.counters['repositories/' + fam] += 1
+        if pre is not None:
+            stats.counters['pre/' + pre] += 1
         if set(sh['repo']) >= set(repogen.C20_BASE + repogen.C20_OPT) and \
                 any(set(p) >= set(repogen.PKG) for c in sh['cats'] for p in c):
             stats.counters['repositories_with_every_optional_component'] += 1
-        if any('man' in p for c in sh['cats'] for p in c):
+        if any('man' in p for c in sh['cats'] for p in c) and pre != 'absent':
             stats.counters['repositories_with_preexisting_package_Manifest'] += 1
         else:
             stats.counters['repositories_without_preexisting_package_Manifest'] += 1
         # ---- whole repository
         case = {'part': 'meta', 'shape': sh, 'seed': seed, 'edits': None}
+        ckey = repogen.key(sh)
+        if pre is not None:
+            case['pre'] = pre
+            ckey = (ckey, pre)
         out = []
         root = generate_meta(case, scratch, stats, out)
         gen_tree = check_generated(case, root, stats, out) if root is not None else None
-        stats.case(('meta', repogen.key(sh)), nontrivial=gen_tree is not None)
+        stats.case(('meta', ckey), nontrivial=gen_tree is not None)
         if gen_tree is not None:
             for edits in edit_sets(max_edits(tier, fam, sh)):
                 if not edits:
                     continue
                 ecase = dict(case, edits=[list(e) for e in edits])
                 ok = check_edit(ecase, gen_tree, scratch, stats, out)
-                stats.case(('meta', repogen.key(sh), edits), nontrivial=bool(ok))
+                stats.case(('meta', ckey, edits), nontrivial=bool(ok))
             if len(stats.samples) < 1:
                 stats.sample({'shape': sh, 'generated': sorted(p for p in gen_tree.files
                                                                 if os.path.basename(p).startswith('Manifest'))})
@@ -464,8 +618,10 @@ def run_shard(spec, tier, seed, scratch):
             stats.violation(x['sig'], x['case'], x['message'])
         # ---- single directories
         scase = {'part': 'single', 'shape': sh, 'seed': seed}
+        if pre is not None:
+            scase.update(pre=pre, dirs='packages')
         vs, ok = check_single(scase, scratch, stats)
-        stats.case(('single', repogen.key(sh)), nontrivial=ok)
+        stats.case(('single', ckey), nontrivial=ok)
         for x in vs:
             stats.violation(x['sig'], x['case'], x['message'])
     return stats
